@@ -98,9 +98,29 @@ func c13Handler(kind Kind, rec *c13Recorder, opts ...connect.HandlerOption) *con
 // c13Recorder keeps live references handed to user code next to deep copies
 // taken on receipt; they must still agree at the end.
 type c13Recorder struct {
-	live   [][]byte
-	copies [][]byte
-	labels []string
+	live     [][]byte
+	copies   [][]byte
+	labels   []string
+	errs     []error  // error values handed to user code ...
+	errMeta  []string // ... and what their metadata said on receipt
+	errLabel []string
+}
+
+func errMetaString(err error) string {
+	var ce *connect.Error
+	if !errors.As(err, &ce) {
+		return "(not a connect error)"
+	}
+	return fmt.Sprintf("echo=%v tr=%v err=%v", ce.Meta().Values("X-Echo"), ce.Meta().Values("X-Tr"), ce.Meta().Values("X-Err"))
+}
+
+func (r *c13Recorder) retainErr(label string, err error) {
+	if err == nil {
+		return
+	}
+	r.errs = append(r.errs, err)
+	r.errMeta = append(r.errMeta, errMetaString(err))
+	r.errLabel = append(r.errLabel, label)
 }
 
 func (r *c13Recorder) retain(label string, b []byte) {
@@ -113,6 +133,11 @@ func (r *c13Recorder) check() string {
 	for i := range r.live {
 		if !bytes.Equal(r.live[i], r.copies[i]) {
 			return fmt.Sprintf("%s: value handed to user code changed afterwards: was %s, now %s", r.labels[i], shortBytes(r.copies[i]), shortBytes(r.live[i]))
+		}
+	}
+	for i, e := range r.errs {
+		if now := errMetaString(e); now != r.errMeta[i] {
+			return fmt.Sprintf("%s: metadata of an error handed to user code changed afterwards: was %s, now %s", r.errLabel[i], r.errMeta[i], now)
 		}
 	}
 	return ""
@@ -134,6 +159,9 @@ func obsString(res CallResult) string {
 		}
 	}
 	fmt.Fprintf(&sb, " echo=%v tr=%v", res.Header.Values("X-Echo"), res.Trailer.Values("X-Tr"))
+	if res.EndErr != nil {
+		fmt.Fprintf(&sb, " end-of-stream-error-meta{%s}", errMetaString(res.EndErr))
+	}
 	return sb.String()
 }
 
@@ -146,10 +174,13 @@ func c13RunOne(ctx context.Context, cl *connect.Client[BV, BV], kind Kind, call 
 	for _, m := range res.Msgs {
 		rec.retain(fmt.Sprintf("client-recv:%d", call), m)
 	}
+	rec.retainErr(fmt.Sprintf("client-end-of-stream:%d", call), res.EndErr)
+	rec.retainErr(fmt.Sprintf("client-error:%d", call), res.Err)
 	return res
 }
 
 type c13Obs struct {
+	Wrong    string // a call's result differs from what the handler program must answer
 	Results  []string
 	Retained string
 	Poison   string
@@ -202,6 +233,9 @@ func c13Body(k c13Case, s *bsched.Sched) any {
 				if err != nil {
 					if !errors.Is(err, io.EOF) {
 						results[0].Err = err
+					} else {
+						results[0].EndErr = err
+						rec.retainErr("client-end-of-stream:0", err)
 					}
 					break
 				}
@@ -225,7 +259,18 @@ func c13Body(k c13Case, s *bsched.Sched) any {
 	} else if s.Diverged == "" {
 		obs.Leaked = bsched.LibraryGoroutines()
 	}
-	for _, r := range results {
+	for i, r := range results {
+		if i < len(k.Calls) {
+			want, failed := c13Expected(k.Cfg.Kind, i, k.Calls[i])
+			switch {
+			case failed && r.Err == nil:
+				obs.Wrong = fmt.Sprintf("call %d must fail but succeeded with %s", i, shortMsgs(r.Msgs))
+			case !failed && r.Err != nil:
+				obs.Wrong = fmt.Sprintf("call %d failed: %v", i, r.Err)
+			case !failed && !equalMsgs(r.Msgs, want):
+				obs.Wrong = fmt.Sprintf("call %d received %s, the handler program answers %s", i, shortMsgs(r.Msgs), shortMsgs(want))
+			}
+		}
 		obs.Results = append(obs.Results, obsString(r))
 		for _, m := range r.Msgs {
 			if bytes.Contains(m, poisonSeq) {
@@ -271,6 +316,22 @@ func c13Solo(t *testing.T, k c13Case) []string {
 	return out
 }
 
+// c13Expected is the reference observation of a call computed from the
+// scenario alone (what the handler program must answer).
+func c13Expected(kind Kind, call int, spec c13Call) (msgs [][]byte, failed bool) {
+	pay := c13Payloads(call, spec.Sizes)
+	if spec.ErrCode != 0 {
+		return nil, true
+	}
+	if kind.ServerStreams() {
+		for _, p := range pay {
+			msgs = append(msgs, append([]byte{'r'}, p...))
+		}
+		return msgs, false
+	}
+	return [][]byte{append([]byte{'r'}, bytes.Join(pay, nil)...)}, false
+}
+
 func c13Judge(c *ev.Collector, k c13Case, x *bsched.Exec, solo []string) string {
 	obs := x.Obs.(*c13Obs)
 	kk := k
@@ -293,6 +354,10 @@ func c13Judge(c *ev.Collector, k c13Case, x *bsched.Exec, solo []string) string 
 			bad = true
 			viol("same-as-solo", "differs", "call %d observed\n    %s\n  alone it observes\n    %s", i, clip(obs.Results[i], 600), clip(solo[i], 600))
 		}
+	}
+	if obs.Wrong != "" {
+		bad = true
+		viol("result-correct", "wrong", "%s", obs.Wrong)
 	}
 	if obs.Poison != "" {
 		bad = true
